@@ -135,3 +135,32 @@ def same_interval_pair(draw, pmax=3, kmax=3, grid=12):
                 m = draw(st.integers(1, q + 1))
                 V = sorted(V + [z] * m)
     return (U, p), (V, q)
+
+
+@st.composite
+def special_rational(draw, Ulow, plow, Uhigh, phigh, dim=None):
+    """A rational curve case on (Uhigh, phigh) - a refinement of (Ulow, plow) - in which only *part* of the
+    homogeneous representation lives in the low space: the weight function alone, or the numerator alone, or
+    constant weights.  Such curves are (generically) NOT reducible, but a projection that looks at the weights
+    only, or at the numerator only, believes they are.  Returns (case, kind)."""
+    from . import oracle
+    from .oracle import State
+    nlow, nhigh = len(Ulow) - plow - 1, len(Uhigh) - phigh - 1
+    if dim is None:
+        dim = draw(st.sampled_from([0, 0, 2]))
+    kind = draw(st.sampled_from(["weights-in-low-space", "numerator-in-low-space", "weights-constant"]))
+    if kind == "weights-in-low-space":
+        wl = draw(pos_weights(nlow))
+        W = [x[0] for x in oracle.refine_state(State(Ulow, plow, [(w,) for w in wl], None, True), Uhigh, phigh).P]
+        P = draw(ctrlpoints(nhigh, dim))
+    elif kind == "numerator-in-low-space":
+        Nl = draw(ctrlpoints(nlow, dim))
+        pts = [(x,) for x in Nl] if dim == 0 else [tuple(x) for x in Nl]
+        N = oracle.refine_state(State(Ulow, plow, pts, None, dim == 0), Uhigh, phigh).P
+        W = draw(pos_weights(nhigh))
+        P = [n_[0] / w for n_, w in zip(N, W)] if dim == 0 else [[c / w for c in n_] for n_, w in zip(N, W)]
+    else:
+        c = draw(st.sampled_from([F(1), F(2), F(1, 3)]))
+        W = [c] * nhigh
+        P = draw(ctrlpoints(nhigh, dim))
+    return {"U": list(Uhigh), "p": phigh, "P": P, "w": W, "num": "frac"}, kind
